@@ -21,7 +21,8 @@ LEVEL = "exploration"
 ASSUMPTIONS = [
     "byte equality of TTFont.save output is the oracle; exception *types* are compared, messages are not",
     "every compared step runs with SOURCE_DATE_EPOCH pinned (the property only speaks once it pins the timestamps)",
-    "worlds that reach the call sites of the open C07 findings (MATH constants pop, colour-layer explode, dotted-circle ensure_base) are kept out of the sampled worlds - they make output history-dependent by the listed defect - and are covered by directed scenarios reported as KNOWN-FINDING",
+    "worlds that reach the call sites of the open source-mutation findings (MATH constants pop, colour lib key, dotted-circle ensure_base) make output history-dependent by those listed defects; they are used only in history-free cases (every step on fresh objects, no repeated / faulted / inplace steps) where all other dimensions are still compared, and the history effect itself is shown by directed KNOWN-FINDING cases",
+    "steps that meet the precondition of KF-C08-varfea-unfiltered-anchors do not draw the inplace dimension",
     "cffsubr/tx, compreffor, pyclipper and skia-pathops are treated as deterministic functions of their input",
     "hash-seed incarnations are fresh interpreters; only the scenario (durable state) crosses the restart",
 ]
